@@ -433,8 +433,8 @@ class MinFlowDecomp(pathmodel.AbstractPathModelDAG): # Note that we inherit from
         if any(self.flow_attr not in self.G.edges[e] for e in self.G.edges):
             return None
 
-        # Nor is anything computed from flow values that are not valid (negative or NaN): the k-model rejects them with a ValueError
-        if any(not (self.G.edges[e][self.flow_attr] >= 0) for e in self.G.edges):
+        # Nor is anything computed from flow values that are not valid (negative, NaN or infinite): the k-model rejects them with a ValueError
+        if any(not (0 <= self.G.edges[e][self.flow_attr] < float("inf")) for e in self.G.edges):
             return None
 
         min_gen_set_start_time = time.perf_counter()
@@ -601,9 +601,12 @@ class MinFlowDecomp(pathmodel.AbstractPathModelDAG): # Note that we inherit from
 
         self._lowerbound_k = self.optimization_options.get("lowerbound_k", 1)
 
-        all_weights = set({int(self.G.edges[e][self.flow_attr]) for e in self.G.edges() if self.flow_attr in self.G.edges[e] and e not in self.edges_to_ignore})
+        # (the flow values have not been validated yet - the first k-model does that: int() of an infinite value raises OverflowError,
+        # so only finite values are counted here and the k-model rejects the others with a ValueError)
+        all_weights = set({int(self.G.edges[e][self.flow_attr]) for e in self.G.edges()
+                           if self.flow_attr in self.G.edges[e] and e not in self.edges_to_ignore and math.isfinite(self.G.edges[e][self.flow_attr])})
         
-        self._lowerbound_k = max(self._lowerbound_k, math.ceil(math.log2(len(all_weights))))
+        self._lowerbound_k = max(self._lowerbound_k, math.ceil(math.log2(len(all_weights))) if all_weights else 0)
 
         self._lowerbound_k = max(self._lowerbound_k, stG.get_width(edges_to_ignore=stG.source_sink_edges.union(self.edges_to_ignore)))
 
